@@ -167,11 +167,14 @@ let check inp obs =
       | genc :: gdec :: rest ->
         let is_hdr = (name = "Header") in
         let nodec = (name = "LocalizedPayload") in
-        let mhash = if is_hdr then [hex_of_bytes (fst (header_hash (fresh v)))] else [] in
+        let mh = if is_hdr then fst (header_hash (fresh v)) else [] in
+        let mhash = if is_hdr then [hex_of_bytes mh] else [] in
         let model = String.concat " " ([hex_of_bytes enc; (if nodec then "-" else dec)] @ mhash) in
         let p_enc = (bytes_of_hex genc = enc) in
         let p_dec = nodec || (gdec = of_val t v) in
-        let p_hash = (not is_hdr) || (match rest with [h] -> bytes_of_hex h = spec_hash v | _ -> false) in
+        (* spec_hash v = blake2b_256 (encode header v); by C14_header_hash it is what the model's
+           Hash() of a fresh header returns, so it is computed once *)
+        let p_hash = (not is_hdr) || (match rest with [h] -> bytes_of_hex h = mh | _ -> false) in
         let why = String.concat "," (List.filter (fun x -> x <> "")
           [ (if p_enc then "" else "encoding differs from the reference encoder");
             (if p_dec then "" else "decode(encode v) <> v");
@@ -193,6 +196,13 @@ let check inp obs =
        (* not a canonical encoding of the type: how the implementation treats malformed input is
           the subject of C12/C33, no claim here *)
        ok ~nontrivial:false ~tags:"dec-malformed-noclaim" ())
+  | ["babepre"; vs] ->
+    let t = ty_of "BabeDigest" in
+    let v = to_val t (parse_tree vs) in
+    let model = "42414245 " ^ hex_of_bytes (encode t v) ^ " " ^ of_val t v in
+    { prop_ok = (obs = model); model_eq = (obs = model); nontrivial = true; finding = "-";
+      tags = "babepre," ^ kind_tag t v;
+      detail = if obs = model then "" else "ToPreRuntimeDigest is not (BABE, reference encoding) / does not decode back; model=" ^ model }
   | ["hashmut"; v1s; v2s] ->
     let v1 = to_val header (parse_tree v1s) and v2 = to_val header (parse_tree v2s) in
     let (h0, hd) = header_hash (fresh v1) in
@@ -202,8 +212,9 @@ let check inp obs =
     let model = String.concat " " [hex_of_bytes h0; hex_of_bytes h1; hex_of_bytes enc1] in
     (match o with
      | [g0; g1; genc] ->
-       let p0 = (bytes_of_hex g0 = spec_hash v1) in
-       let p1 = (bytes_of_hex g1 = spec_hash v2) in
+       let s2 = spec_hash v2 in
+       let p0 = (bytes_of_hex g0 = h0) in          (* h0 = spec_hash v1 (fresh header) *)
+       let p1 = (bytes_of_hex g1 = s2) in
        let penc = (bytes_of_hex genc = enc1) in
        let guard = stale hd' in
        { prop_ok = p0 && p1 && penc; model_eq = (model = obs); nontrivial = true;
@@ -225,13 +236,18 @@ let check inp obs =
     let inside = request_ok r in
     (match o with
      | genc :: rest ->
-       let p_enc = (bytes_of_hex genc = enc) in
+       (* proto3 field order is not significant: the implementation's bytes must be an encoding
+          of the request for the reference decoder, and so must the field-number-ordered
+          reference encoding *)
+       let same_msg bs = (match decode_request bs with Ok q -> (not inside) || show q = show r | _ -> false) in
+       let p_enc = same_msg (bytes_of_hex genc) && same_msg (encode_request_sorted r)
+                   && List.length (bytes_of_hex genc) = List.length (encode_request_sorted r) in
        let p_rt = (not inside) || (String.concat " " rest = show r) in
        { prop_ok = p_enc && p_rt; model_eq = (model = obs); nontrivial = true; finding = "-";
          tags = "breq" ^ (if inside then ",breq-in-domain" else ",breq-out-of-domain")
                 ^ (match fb with FromHash _ -> ",breq-hash" | FromNumber _ -> ",breq-number");
          detail = if p_enc && p_rt && model = obs then "" else
-           (if not p_enc then "request encoding differs from the reference proto3 encoder" else "request does not round-trip") ^ " model=" ^ model }
+           (if not p_enc then "request encoding is not an encoding of the request for the reference proto3 decoder" else "request does not round-trip") ^ " model=" ^ model }
      | _ -> bad ~tags:"breq,go-error" ("unexpected observation " ^ obs))
   | ["bresp"; vs] ->
     let v = to_val block_data_ty (parse_tree vs) in
